@@ -341,6 +341,28 @@ class _NS(dict):
 _qcount = [0]
 
 
+def _real_q(kind, f):
+    _qcount[0] += 1
+    names = f.__code__.co_varnames[:f.__code__.co_argcount]
+    vs = [z3.Real('%s!q%d' % (nm, _qcount[0])) for nm in names]
+    body = f(*vs)
+    return z3.ForAll(vs, body) if kind == 'A' else z3.Exists(vs, body)
+
+
+MODE = ['assume']     # 'prove' while a function's own postconditions are being established
+
+
+def _exists_w(f, *witness):
+    """existential with an explicit witness: proved by instantiating the witness (verify mode), assumed as a
+    plain existential at call sites"""
+    if MODE[0] == 'prove':
+        return f(*witness)
+    _qcount[0] += 1
+    names = f.__code__.co_varnames[:f.__code__.co_argcount]
+    vs = [z3.Const('%s!q%d' % (nm, _qcount[0]), w.sort() if z3.is_expr(w) else z3.RealSort()) for nm, w in zip(names, witness)]
+    return z3.Exists(vs, f(*vs))
+
+
 def _bounded(kind, f, n=1):
     _qcount[0] += 1
     names = f.__code__.co_varnames[:f.__code__.co_argcount]
@@ -463,6 +485,8 @@ BASE_NS = {
     'cx': cx, 'CDIV_DEF': cdiv_def, 'INSLICE': INSLICE, 'INSLICE_AX': inslice_ax,
     'And': z3.And, 'Or': z3.Or, 'Not': z3.Not, 'Implies': z3.Implies, 'If': z3.If, 'Xor': z3.Xor,
     'forall': lambda f: _bounded('A', f), 'exists': lambda f: _bounded('E', f),
+    'exists_w': _exists_w,
+    'forall_real': lambda f: _real_q('A', f), 'exists_real': lambda f: _real_q('E', f),
     'INT_MIN': INT_MIN, 'INT_MAX': INT_MAX, 'tdiv': tdiv, 'tmod': tmod, 'absz': zabs, 'zmax': zmax, 'zmin': zmin,
     'ToReal': z3.ToReal, 'ToInt': z3.ToInt, 'IntVal': z3.IntVal, 'RealVal': z3.RealVal, 'BoolVal': z3.BoolVal,
     'same': same, 'True': True, 'False': False, 'Select': z3.Select, 'z3': z3, 'Q': z3.Q, 'Sum': z3.Sum,
@@ -488,6 +512,10 @@ def _names_of(expr):
     code = compile(tree, '<spec>', 'eval')
     _parse_cache[expr] = (code, used - bound)
     return _parse_cache[expr]
+
+
+from . import specfun as _sf   # noqa: E402
+BASE_NS.update(_sf.NS)
 
 
 def spec_eval_term(expr, env, extra=None):
